@@ -119,7 +119,7 @@ func fullProject(work string, nsvc int) *types.Project {
 		proj.Populate(&c)
 		p.Configs[k] = c
 	}
-	p.Profiles = []string{"extra"}
+	p.Profiles = []string{"", "zeta", "extra"} // as COMPOSE_PROFILES=",zeta,extra" gives: a blank entry, not in sorted order
 	return p
 }
 
@@ -151,7 +151,7 @@ func c14Ops(rng *rand.Rand, nsvc int, empty bool) []c14Op {
 		// the argument is a slice of the receiver itself: the result must not keep it
 		{"WithProfiles(own)", func(p *types.Project) (*types.Project, error) {
 			if len(p.Profiles) == 0 {
-				q, err := p.WithProfiles([]string{"more", "extra"})
+				q, err := p.WithProfiles([]string{"", "more", "extra"}) // (a blank entry, as COMPOSE_PROFILES=",more,extra" gives)
 				if err != nil {
 					return nil, err
 				}
@@ -313,6 +313,9 @@ func C14(c *core.Ctx) {
 		cur := fullProject(c.Work, nsvc)
 		if s == 0 {
 			c.Set("populated_project_objects", len(proj.Reach(cur)))
+		}
+		if s%3 == 2 {
+			cur.DisabledServices = nil // a project nothing has been disabled in yet (hand-built, or before any profile selection)
 		}
 		produced := []*types.Project{cur}
 		dumps := []string{proj.Dump(cur)}
